@@ -121,3 +121,108 @@ class CheckOnly:
 
     def ensures(self, c):
         return {"C08: a check-only node returns its datum unchanged whenever it accepts it": z3.Implies(c.truthy(c.result), CO(c.method))}
+
+
+# --- the `collection` factory -----------------------------------------------------------------
+from pyvc.calls import issub_rt  # noqa: E402
+from pyvc.symexec import SV as _SV  # noqa: E402
+
+from . import spec as S  # noqa: E402
+
+ABC_SET = z3.Const("C_abc_Set", Val)
+CVD = z3.Function("constraints_validators_of", Val, Val)  # the mapping class -> tuple of Constraint
+
+
+def _constraints_validators(ex, node, st):
+    """constraints_validators(c): a mapping defined for every class (defaultdict(tuple)) whose
+    values are tuples of Constraint objects (E-checked: kind -> class -> error table)"""
+    outs = []
+    for s, k, vs in ex.eval_many(node.args, st):
+        if k == "exc":
+            outs.append((s, k, vs))
+            continue
+        outs.append((s, "val", sv_val(CVD(ex.val_of(vs[0])))))
+    return outs
+
+
+def cv_axioms():
+    c, k = z3.Consts("cvc cvk", Val)
+    dhas0, dget0 = T.heap0("dhas"), T.heap0("dget")
+    return [
+        z3.ForAll([c], z3.And(cls(CVD(c)) == K("dict"), T.alloc0[CVD(c)]), patterns=[CVD(c)]),
+        z3.ForAll([c, k], z3.And(dhas0[CVD(c)][k], cls(dget0[CVD(c)][k]) == K("tuple"), T.alloc0[dget0[CVD(c)][k]]), patterns=[dget0[CVD(c)][k]]),
+        z3.ForAll([c, k], dhas0[CVD(c)][k], patterns=[dhas0[CVD(c)][k]]),
+    ]
+
+
+def issub_axioms():
+    c = z3.Const("isc", Val)
+    return [
+        z3.ForAll([c], z3.Implies(issub_rt(c, K("frozenset")), issub_rt(c, ABC_SET)), patterns=[issub_rt(c, K("frozenset"))]),
+        z3.ForAll([c], z3.Not(z3.And(issub_rt(c, K("tuple")), issub_rt(c, ABC_SET))), patterns=[issub_rt(c, K("tuple"))]),
+    ]
+
+
+COLLECTION_USES = CHECK_ONLY_USES + [
+    f"{MM}:ListMethod.deserialize",
+    f"{MM}:SetMethod.deserialize",
+    f"{MM}:VariadicTupleMethod.deserialize",
+    f"{MM}:FrozenSetMethod.deserialize",
+]
+
+
+@contract(f"{DM}:DeserializationMethodVisitor.collection.<locals>.factory", props=["C01", "C08"])
+class CollectionFactory:
+    """Layer 2: whatever variant the factory picks (set / check-only list / copying list, wrapped
+    into a tuple or frozenset), the node it returns denotes the collection type: it accepts
+    exactly the arrays whose elements the element method accepts and whose array constraints
+    hold, and its image has the annotated container class."""
+
+    layer = 2
+    shards = 8
+    budget_factor = 3  # few obligations, two of them need ~10 s of e-matching over the refinement axioms
+    free_vars = ["self", "cls", "value_factory"]
+    functional_classes = ["SetMethod", "ListMethod", "ListCheckOnlyMethod", "VariadicTupleMethod", "FrozenSetMethod"]
+    uses_axioms_of = COLLECTION_USES
+    kinds = {"constraints_validators(constraints)": "dict"}
+    call_overrides = {"constraints_validators": _constraints_validators}
+    globals = {"collections.abc.Set": lambda ex: _SV("class", ABC_SET)}
+    raises: list = []
+
+    def extra_axioms(self, ex):
+        return wf_axioms(ex, CHECK_ONLY_USES) + cv_axioms() + issub_axioms()
+
+    def requires(self, c):
+        vm = c.attr0(c.value_factory, "method")
+        x = z3.Const("x", Val)
+        return [
+            WF(vm),
+            cls(c.attr0(c.self, "no_copy")) == K("bool"),
+            # a set / frozenset type has hashable elements (Python typing of the annotated type)
+            z3.Implies(issub_rt(c.cls, ABC_SET), T.forall([x], z3.Implies(T.acc(vm, x), T.hashable(T.img(vm, x))), patterns=[T.img(vm, x)])),
+        ]
+
+    def modifies(self, c):
+        return []
+
+    def ensures(self, c):
+        r = c.result
+        vm = c.attr0(c.value_factory, "method")
+        lc = c.dget0(CVD(c.constraints), K("list"))
+        d = z3.Const("fd", Val)
+        j = z3.Int("fj")
+        conforms = z3.And(isinst(d, "list"), T.forall([j], z3.Implies(z3.And(j >= 0, j < c.llen0(d)), T.acc(vm, c.lget0(d, j))), patterns=[c.lget0(d, j)]), S.all_hold(lc, d))
+        is_set = z3.And(issub_rt(c.cls, ABC_SET), z3.Not(issub_rt(c.cls, K("frozenset"))))
+        want = z3.If(is_set, K("set"), z3.If(issub_rt(c.cls, K("tuple")), K("tuple"), z3.If(issub_rt(c.cls, K("frozenset")), K("frozenset"), K("list"))))
+        return {
+            "C01: the compiled node accepts exactly the arrays whose elements conform and whose array constraints hold": T.forall([d], T.acc(r, d) == conforms, patterns=[T.acc(r, d)]),
+            "C01/C08: for list types the image holds the elements' images, whichever variant (check-only under no_copy, or copying) was selected": T.forall(
+                [d],
+                z3.Implies(
+                    z3.And(T.acc(r, d), z3.Not(issub_rt(c.cls, ABC_SET)), z3.Not(issub_rt(c.cls, K("tuple")))),
+                    z3.And(c.llen0(T.img(r, d)) == c.llen0(d), T.forall([j], z3.Implies(z3.And(j >= 0, j < c.llen0(d)), c.lget0(T.img(r, d), j) == T.img(vm, c.lget0(d, j))), patterns=[c.lget0(T.img(r, d), j)])),
+                ),
+                patterns=[T.img(r, d)],
+            ),
+            "C01: the image has the annotated container class (set, tuple, frozenset, else list)": T.forall([d], z3.Implies(T.acc(r, d), T.sub(cls(T.img(r, d)), want)), patterns=[T.img(r, d)]),
+        }
